@@ -347,8 +347,34 @@ def run_line(state, sx):
     return 'ok ' + enc_tree(res)
 
 
+def _canon_ordered(x):
+    if isinstance(x, str):
+        return proto.canon_cell(x, True)
+    return (x[0],) + tuple(_canon_ordered(y) for y in x[1:])
+
+
+def _recolumns(line):
+    """does the line ask for column alignment of a frame with several columns? (then the ORDER of the columns is pandas' business)"""
+    sx = proto.parse(line)
+    if sx[1] != 'sync' or sx[-1] == 'N':
+        return False
+    def multi(t):
+        if isinstance(t, str):
+            return False
+        if t and t[0] == 'df':
+            return len(t[1][2]) - 1 > 1
+        return any(multi(y) for y in t[1:])
+    return multi(sx[2])
+
+
 def compare(case, i, line, ir, mr):
     if proto.same_reply(ir, mr):
+        # `same_reply` sorts dict entries; where no column alignment takes place the ORDER of dict keys and of frame columns is part
+        # of "container structure preserved / values intact" and both sides keep it: compare it too
+        if ir != mr and ir.startswith('ok ') and not _recolumns(line):
+            a, b = proto.parse(ir.split(None, 1)[1]), proto.parse(mr.split(None, 1)[1])
+            if _canon_ordered(a) != _canon_ordered(b):
+                return 'order of dict keys / frame columns changed: implementation %s, model %s' % (ir, mr)
         return None
     if ir == 'bad-op':
         # the runner refuses a line (a shrunk presync call that is no call any more): fine only if the model refuses it too
